@@ -36,7 +36,7 @@ functions = [
      'anchor': r'template <template <int> class SymbolDecoderT>\s*bool DecodeRawSymbols\(uint32_t num_values, DecoderBuffer \*src_buffer,\s*uint32_t \*out_values\)\s*\{',
      'sig': 'bool DecodeRawSymbols(uint32_t num_values, struct DecoderBuffer *src_buffer, uint32_t *out_values)',
      'subst': [(r'src_buffer->Decode\(&max_bit_length\)', 'DecoderBuffer_Decode_u8(src_buffer, &max_bit_length)', 1),
-               (r'DecodeRawSymbolsInternal<SymbolDecoderT<(\d+)>>\(\s*num_values, src_buffer,\s*out_values\)', r'DecodeRawSymbolsInternal_b(\1, num_values, src_buffer, out_values)', 18)]},
+               (r'DecodeRawSymbolsInternal<SymbolDecoderT<(\d+)>>\(\s*num_values, src_buffer,\s*out_values\)', r'DecodeRawSymbolsInternal_b(\1, num_values, src_buffer, out_values)', 1)]},
     {'name': 'DecodeSymbols', 'file': E + 'symbol_decoding.cc',
      'anchor': r'bool DecodeSymbols\(uint32_t num_values, int num_components,\s*DecoderBuffer \*src_buffer, uint32_t \*out_values\)\s*\{',
      'sig': 'bool DecodeSymbols(uint32_t num_values, int num_components, struct DecoderBuffer *src_buffer, uint32_t *out_values)',
